@@ -43,6 +43,7 @@ func H_Conformance() {
 		nd.Observe(p+".neg", a.Neg())
 		nd.Observe(p+".str", math.LegacyMustNewDecFromStr(a.String()))
 		nd.Observe(p+".ispos", a.IsPositive())
+		nd.Observe(p+".isnil", a.IsNil())
 		for j, b := range ds {
 			q := p + "x" + itoa(j)
 			nd.Observe(q+".mul", a.Mul(b))
@@ -51,6 +52,8 @@ func H_Conformance() {
 			nd.Observe(q+".sub", a.Sub(b))
 			nd.Observe(q+".lt", a.LT(b))
 			nd.Observe(q+".gte", a.GTE(b))
+			nd.Observe(q+".gt", a.GT(b))
+			nd.Observe(q+".lte", a.LTE(b))
 			if !b.IsZero() {
 				nd.Observe(q+".quo", a.Quo(b))
 				nd.Observe(q+".quot", a.QuoTruncate(b))
@@ -65,6 +68,11 @@ func H_Conformance() {
 	for i, a := range is {
 		p := "i" + itoa(i)
 		nd.Observe(p+".todec", math.LegacyNewDecFromInt(a))
+		nd.Observe(p+".isneg", a.IsNegative())
+		nd.Observe(p+".ispos", a.IsPositive())
+		nd.Observe(p+".isnil", a.IsNil())
+		nd.Observe(p+".sign", a.Sign())
+		nd.Observe(p+".str", a.String())
 		for j, b := range is {
 			if j >= 9 || i >= 9 {
 				continue
@@ -75,12 +83,23 @@ func H_Conformance() {
 			nd.Observe(q+".mul", a.Mul(b))
 			nd.Observe(q+".min", math.MinInt(a, b))
 			nd.Observe(q+".gt", a.GT(b))
+			nd.Observe(q+".gte", a.GTE(b))
+			nd.Observe(q+".lt", a.LT(b))
+			nd.Observe(q+".lte", a.LTE(b))
+			nd.Observe(q+".eq", a.Equal(b))
 			if !b.IsZero() {
 				nd.Observe(q+".quo", a.Quo(b))
 				nd.Observe(q+".mod", a.Mod(b))
 			}
 		}
 	}
+	// constructors
+	nd.Observe("c.newdec", math.LegacyNewDec(-42))
+	nd.Observe("c.newdecprec", math.LegacyNewDecWithPrec(12345, 3))
+	nd.Observe("c.onedec", math.LegacyOneDec())
+	nd.Observe("c.zerodec", math.LegacyZeroDec())
+	nd.Observe("c.newint", math.NewInt(-9007199254740993))
+	nd.Observe("c.zeroint", math.ZeroInt())
 	// symbolic operands pinned to constants: the non-folded terms are evaluated by the solver
 	x, y := nd.DecS("x", 200), nd.DecS("y", 200)
 	k := nd.Pick("pin", 6)
